@@ -228,10 +228,37 @@ def _check_extension(ctx: Ctx) -> None:
         ctx.instance('C18.e', construct)
         total = T.Term.const(0)
         from0_all = True
+        joined = False
         try:
             lists = {}
             counts: Dict = {}
+            named = {}            # local -> (length, from0) of a named piece: tail = seq[0:k]
+            alloc = {}            # local -> length term of a pre-allocated result (np.empty(n)), filled by slice stores
             for s_ in body:
+                if isinstance(s_, ast.Assign) and isinstance(s_.targets[0], ast.Name) and isinstance(s_.value, ast.Subscript) \
+                        and isinstance(s_.value.value, ast.Name) and s_.value.value.id == seq:
+                    named[s_.targets[0].id] = piece_len(s_.value)
+                    continue
+                if isinstance(s_, ast.Assign) and isinstance(s_.targets[0], ast.Name) and isinstance(s_.value, ast.Call) \
+                        and norm(s_.value.func) in ('np.empty', 'np.zeros') and s_.value.args:
+                    ln = T.from_ast(s_.value.args[0], env)
+                    ln = T.substitute(ln, {k_ + '.size': v_[0] for k_, v_ in named.items()})
+                    alloc[s_.targets[0].id] = [ln, 0]
+                    continue
+                if isinstance(s_, ast.Assign) and len(s_.targets) == 1 and isinstance(s_.targets[0], ast.Subscript):
+                    root = s_.targets[0]
+                    while isinstance(root, (ast.Subscript, ast.Call, ast.Attribute)):
+                        root = root.value if not isinstance(root, ast.Call) else root.func
+                    if isinstance(root, ast.Name) and root.id in alloc:
+                        v_ = s_.value
+                        if isinstance(v_, ast.Name) and v_.id in named:
+                            from0_all = from0_all and named[v_.id][1]
+                        elif isinstance(v_, ast.Name) and v_.id == seq:
+                            pass
+                        else:
+                            from0_all = from0_all and piece_len(v_)[1]
+                        alloc[root.id][1] += 1
+                        continue
                 if isinstance(s_, ast.Assign) and isinstance(s_.targets[0], ast.Name) and isinstance(s_.value, ast.List):
                     lists[s_.targets[0].id] = [piece_len(e) for e in s_.value.elts]
                 elif isinstance(s_, ast.For) and isinstance(s_.iter, ast.Call) and norm(s_.iter.func) == 'range' and len(s_.iter.args) == 1 \
@@ -270,11 +297,19 @@ def _check_extension(ctx: Ctx) -> None:
                 elif isinstance(s_, ast.Assign) and isinstance(s_.value, ast.Call) and norm(s_.value.func) in ('np.hstack', 'np.concatenate'):
                     a = s_.value.args[0]
                     pieces = lists[a.id] if isinstance(a, ast.Name) and a.id in lists else [piece_len(e) for e in a.elts]
+                    joined = True
                     for l, f0 in pieces:
                         total = total + l
                         from0_all = from0_all and f0
+            for an, (ln, nst) in alloc.items():
+                if nst >= 2 and not joined:
+                    joined = True
+                    total = ln
         except (T.Unknown, AttributeError, KeyError) as e:
             ctx.error('C18.e: extension branch %s not recognised (%s)' % (name, e))
+        if not joined:
+            ctx.error('C18.e: extension branch %s joins its pieces neither with hstack / concatenate nor by slice stores into a '
+                      'pre-allocated array (cannot tell)' % name)
         # size // RS * RS stays symbolic: substitute the floor division atom consistently (it cancels in the sum)
         ok = total == want and from0_all
         ctx.obligation('C18.e', construct, ok, {'total_length': total.pretty(), 'expected': want.pretty(), 'prefix_from_index_0': from0_all})
